@@ -130,10 +130,34 @@ def campaign(chk, fam, cases, proof_ok, proof_detail, signature_of=None, label="
     """run all cases; classify; report.  cases: iterable of lists of op lines.
     With batch > 1 several cases are concatenated (separated by a `reset` op) into one run of
     both sides; a batch that shows any difference is re-run case by case."""
-    corr_break = None
-    thm_break = None
-    found_concrete = False
-    todo = []
+    st = {"corr": None, "thm": None, "found": False}
+
+    def handle(ops, counted):
+        """judge one case; True when both sides and the spec agree on it"""
+        if not counted:
+            chk.count("\n".join(ops), nontrivial=len(ops) >= min_ops)
+            chk.sample(list(ops)[:40], cap=3)
+        ops = list(ops)
+        r = judge(fam, ops)
+        if r is None:
+            chk.cov["traces_validated_against_impl"] += 1
+            return True
+        if r["kind"] in ("spec", "crash"):
+            hung = "rc=-999" in r["detail"] or "TIMEOUT" in r["detail"]
+            small = (ops[: r["at"] + 1] if r["at"] < len(ops) else ops) if hung else \
+                shrink(fam, ops[: r["at"] + 1] if r["at"] < len(ops) else ops, r["kind"])
+            r2 = r if hung else (judge(fam, small) or r)
+            sig = signature_of(small, r2) if signature_of else None
+            if chk.violation("\n".join(small) + "\n", "%s %s: %s" % (label or fam.name, r2["kind"], r2["detail"]), signature=sig):
+                st["found"] = True
+        elif r["kind"] == "thm":
+            if st["thm"] is None:
+                st["thm"] = (ops, r)
+        else:
+            if st["corr"] is None:
+                st["corr"] = (ops, r)
+        return False
+
     if batch > 1:
         for b in batches(cases, batch):
             joined = []
@@ -144,37 +168,21 @@ def campaign(chk, fam, cases, proof_ok, proof_detail, signature_of=None, label="
                 chk.sample(list(c)[:40], cap=3)
             if judge(fam, joined) is None:
                 chk.cov["traces_validated_against_impl"] += len(b)
-            else:
-                todo += b
-        counted = True
-    else:
-        todo = cases
-        counted = False
-    for ops in todo:
-        if not counted:
-            chk.count("\n".join(ops), nontrivial=len(ops) >= min_ops)
-            chk.sample(list(ops)[:40], cap=3)
-        ops = list(ops)
-        r = judge(fam, ops)
-        if r is None:
-            chk.cov["traces_validated_against_impl"] += 1
-            continue
-        if r["kind"] in ("spec", "crash"):
-            hung = "rc=-999" in r["detail"] or "TIMEOUT" in r["detail"]
-            small = (ops[: r["at"] + 1] if r["at"] < len(ops) else ops) if hung else \
-                shrink(fam, ops[: r["at"] + 1] if r["at"] < len(ops) else ops, r["kind"])
-            r2 = r if hung else (judge(fam, small) or r)
-            sig = signature_of(small, r2) if signature_of else None
-            if chk.violation("\n".join(small) + "\n", "%s %s: %s" % (label or fam.name, r2["kind"], r2["detail"]), signature=sig):
-                found_concrete = True
+                continue
+            alone = [handle(c, True) for c in b]
+            if all(alone) and len(chk.violations) < 3:
+                # no case fails by itself: the difference needs the cases one after another in one process
+                # (state that survives `reset`, e.g. a static object) — the joined run is the failing input
+                chk.bump("batch-only-failure")
+                handle(joined, True)
             if len(chk.violations) >= 3:
                 break
-        elif r["kind"] == "thm":
-            if thm_break is None:
-                thm_break = (ops, r)
-        else:
-            if corr_break is None:
-                corr_break = (ops, r)
+    else:
+        for ops in cases:
+            handle(ops, False)
+            if len(chk.violations) >= 3:
+                break
+    found_concrete, corr_break, thm_break = st["found"], st["corr"], st["thm"]
     return found_concrete, corr_break, thm_break
 
 
